@@ -190,3 +190,25 @@ Proof.
   - intros s stored noise. unfold gen_reserve, reserve_noisy. now rewrite !Nat.add_0_r.
   - intros [s k] r. unfold gen_record, xor_record. cbn [fst snd]. f_equal. apply Nat.add_1_r.
 Qed.
+
+(* --- Pauli-product entry points (MPP / SPP / SPP_DAG) of the four classes ---
+   forward classes hand the instruction to the decomposer and execute every emitted gate through their own dispatch; backward
+   classes reverse the target list first, undo every emitted gate, and give the emitted M its targets reversed again. *)
+Definition prod_entry_ok (cls routine : string) : bool :=
+  match find (fun '(c, r, _, _, _, _) => String.eqb c cls && String.eqb r routine) product_entries with
+  | Some (_, _, dec, rev_first, cb, mrt) =>
+    let fwd := String.eqb cls "tableau" || String.eqb cls "frame" in
+    let is_mpp := String.eqb routine "do_MPP" || String.eqb routine "undo_MPP" in
+    String.eqb dec (if is_mpp then "decompose_mpp_operation" else "decompose_spp_or_spp_dag_operation") &&
+    Bool.eqb rev_first (negb fwd) &&
+    (if fwd then String.eqb cb (if String.eqb cls "tableau" then "do_gate" else "safe_do_instruction") && String.eqb mrt ""
+     else String.eqb cb "undo_gate" &&
+          String.eqb mrt (if is_mpp then (if String.eqb cls "tracker" then disp "tracker" "M" else forwards (disp "analyzer" "M")) else ""))
+  | None => false
+  end.
+Definition product_entries_ok : bool :=
+  is_nil tabmeas_refused &&
+  forallb (fun cls => forallb (prod_entry_ok cls) ["do_MPP"; "do_SPP"; "do_SPP_DAG"]) ["tableau"; "frame"] &&
+  forallb (fun cls => forallb (prod_entry_ok cls) ["undo_MPP"; "undo_SPP"]) ["tracker"; "analyzer"].
+Theorem product_entry_points_ok : product_entries_ok = true.
+Proof. vm_compute. reflexivity. Qed.
